@@ -251,26 +251,35 @@ def r17_3(ctx) -> None:
         if not objs:
             raise AnalysisError(f"{D.short}: no zlib.decompressobj()")
         raw = []
-        headed = []
+        headed = []  # (call site, CFG node whose reachability decides that the zlib-framed variant is chosen)
+        from .common import reaching_values
         for s in objs:
             wb = s.node.args[0] if s.node.args else None
             for k in s.node.keywords:
                 if k.arg == "wbits":
                     wb = k.value
             if wb is None:
-                headed.append(s)
+                headed.append((s, cfg.node_of(s.node)))
                 continue
-            txt = norm(wb)
-            if txt in ("-zlib.MAX_WBITS", "-15", "-MAX_WBITS"):
-                raw.append(s)
-            else:
-                ctx.fail("R17.3", D, s.node, f"inflater created with wbits={txt}: neither raw DEFLATE nor the default zlib framing")
+            # the window size may be chosen first and the inflater created once: every value that reaches the call is one variant
+            variants = [(wb, cfg.node_of(s.node))]
+            if isinstance(wb, ast.Name) and wb.id not in D.params:
+                rv = reaching_values(D, wb.id, s.node)
+                if rv:
+                    variants = [(v_, cfg.node_of(v_)) for v_ in rv]
+            for v_, at in variants:
+                txt = norm(v_)
+                if txt in ("-zlib.MAX_WBITS", "-15", "-MAX_WBITS"):
+                    raw.append(s)
+                elif txt in ("zlib.MAX_WBITS", "15", "MAX_WBITS"):
+                    headed.append((s, at))
+                else:
+                    ctx.fail("R17.3", D, s.node, f"inflater created with wbits={txt}: neither raw DEFLATE nor the default zlib framing")
         ctx.check(bool(raw), "R17.3", D, D.node, f"{D.short} :: raw inflater", "no raw-DEFLATE (negative wbits) inflater: RFC 1951 streams cannot be read",
                   "zlib.decompressobj(-MAX_WBITS)", construct="raw inflater")
         # a headed inflater is only chosen when the input starts with the zlib header
         sp = D.pos_params[1]
-        for s in headed:
-            cn = cfg.node_of(s.node)
+        for s, cn in headed:
             okh = False
             for t in cfg.nodes:
                 if t.kind == "test" and isinstance(t.ast, ast.Call) and isinstance(t.ast.func, ast.Attribute) and t.ast.func.attr == "startswith" \
